@@ -294,7 +294,58 @@ def pad_tail(spec, draw, st):
     return "pad-tail"
 
 
-TRANSFORMS = [asym_perchannel, strip_const, cut_input, empty_const, variable, axis_rank1, no_quant, odd_quant, shape_signature, dead_op, dup_names, self_binary, output_is_input, wide_dtype]
+def while_tail(spec, draw, st):
+    """a WHILE loop behind the first model output: condition subgraph (LESS on a counter) and body subgraph (counter + 1, an element-wise step on the value) - three subgraphs
+    in one model, constants in each of them"""
+    if spec.get("subgraphs") or not spec["outputs"]:
+        return None
+    cur = spec["outputs"][0]
+    T = spec["tensors"][cur]
+    if T["dtype"] not in ("int8", "uint8", "int16") or T.get("scale") is None or isinstance(T["scale"], list) or T.get("zp") is None:
+        return None
+    n = len(spec["tensors"])
+    val = dict(shape=list(T["shape"]), dtype=T["dtype"], scale=T["scale"], zp=T["zp"], data=None)
+    cnt = dict(shape=[], dtype="int32", scale=None, zp=None, data=None)
+    spec["tensors"].append(dict(cnt, name="loop_i0_%d" % n, data=dict(values=[0])))
+    spec["tensors"].append(dict(cnt, name="loop_i_out_%d" % n))
+    spec["tensors"].append(dict(val, name="loop_val_out_%d" % n))
+    spec["ops"].append(dict(code="WHILE", inputs=[n, cur], outputs=[n + 1, n + 2], opts=dict(table="WhileOptions", fields=dict(CondSubgraphIndex=1, BodySubgraphIndex=2)), version=1,
+                            custom_code=None, custom_options=None))
+    spec["outputs"] = [n + 2] + list(spec["outputs"][1:])
+    cond = dict(subgraph_name="loop_cond", tensors=[dict(cnt, name="c_i"), dict(val, name="c_val"), dict(cnt, name="c_limit", data=dict(values=[draw(st.integers(1, 3))])),
+                                                   dict(shape=[], dtype="bool", scale=None, zp=None, data=None, name="c_less")],
+                ops=[dict(code="LESS", inputs=[0, 2], outputs=[3], opts=dict(table="LessOptions", fields={}), version=1, custom_code=None, custom_options=None)], inputs=[0, 1], outputs=[3])
+    step = draw(st.sampled_from(["RELU", "ADD", "LOGISTIC"]))
+    bt = [dict(cnt, name="b_i"), dict(val, name="b_val"), dict(cnt, name="b_one", data=dict(values=[1])), dict(cnt, name="b_i_next"), dict(val, name="b_val_next")]
+    bops = [dict(code="ADD", inputs=[0, 2], outputs=[3], opts=dict(table="AddOptions", fields=dict(FusedActivationFunction=0)), version=1, custom_code=None, custom_options=None)]
+    if step == "ADD":
+        bt.append(dict(val, name="b_k", shape=[1] * len(T["shape"]), data=dict(seed=draw(st.integers(0, 999)), lo=-20, hi=20) if T["dtype"] != "uint8" else dict(seed=3, lo=0, hi=40)))
+        bops.append(dict(code="ADD", inputs=[1, 5], outputs=[4], opts=dict(table="AddOptions", fields=dict(FusedActivationFunction=0)), version=2, custom_code=None, custom_options=None))
+    else:
+        if step == "LOGISTIC" and T["dtype"] in ("int8", "uint8"):
+            bt[4] = dict(bt[4], scale=1.0 / 256, zp=-128 if T["dtype"] == "int8" else 0)
+            spec["tensors"][n + 2].update(scale=bt[4]["scale"], zp=bt[4]["zp"])
+        else:
+            step = "RELU"
+        bops.append(dict(code=step, inputs=[1], outputs=[4], opts=None, version=1, custom_code=None, custom_options=None))
+    body = dict(subgraph_name="loop_body", tensors=bt, ops=bops, inputs=[0, 1], outputs=[3, 4])
+    spec["subgraphs"] = [cond, body]
+    return "while-tail/%s" % step
+
+
+def call_once_head(spec, draw, st):
+    """a CALL_ONCE operator in front of everything: an initialisation subgraph without inputs and outputs that holds a constant and one operator"""
+    if spec.get("subgraphs"):
+        return None
+    init = dict(subgraph_name="init", tensors=[dict(name="init_k", shape=[1, 4], dtype="int8", scale=0.5, zp=0, data=dict(seed=draw(st.integers(0, 999)), lo=-50, hi=50)),
+                                                 dict(name="init_t", shape=[1, 4], dtype="int8", scale=0.5, zp=0, data=None)],
+                ops=[dict(code="RELU", inputs=[0], outputs=[1], opts=None, version=1, custom_code=None, custom_options=None)], inputs=[], outputs=[])
+    spec["ops"].insert(0, dict(code="CALL_ONCE", inputs=[], outputs=[], opts=dict(table="CallOnceOptions", fields=dict(InitSubgraphIndex=1)), version=1, custom_code=None, custom_options=None))
+    spec["subgraphs"] = [init]
+    return "call-once-head"
+
+
+TRANSFORMS = [asym_perchannel, strip_const, cut_input, empty_const, variable, axis_rank1, no_quant, odd_quant, shape_signature, dead_op, dup_names, self_binary, output_is_input, wide_dtype, while_tail, call_once_head]
 
 
 def apply(spec, draw, st, max_n=2):
